@@ -236,7 +236,7 @@ fn hv_stream(out: &mut Out, id: &mut u64, rng: &mut Rng) {
 }
 
 fn hm_stream(out: &mut Out, id: &mut u64, rng: &mut Rng, thorough: bool) {
-    let n = if thorough { 60_000 } else { 6_000 };
+    let n = if thorough { 200_000 } else { 20_000 };
     for _ in 0..n {
         let ops1 = gen_ops(rng, true);
         let ops2 = gen_ops(rng, true);
@@ -535,7 +535,7 @@ fn tr_stream(out: &mut Out, id: &mut u64, rng: &mut Rng, thorough: bool) {
         tr_case(out, id, kind, false, &BodyVal::Unser, &Decl { shape: "none", vals: vec![] }, &[]);
         tr_case(out, id, kind, true, &BodyVal::Unser, &gen_decl(rng, "h1"), &[]);
     }
-    let n = if thorough { 200_000 } else { 20_000 };
+    let n = if thorough { 600_000 } else { 60_000 };
     for _ in 0..n {
         let kind = *rng.pick(KINDS);
         let wrapped = rng.chance(5, 6);
@@ -618,7 +618,7 @@ fn rd_stream(out: &mut Out, id: &mut u64, rng: &mut Rng, thorough: bool) {
         rd_case(out, id, k, "/ok", &[Op::Insert("Location".into(), "/explicit".into())]);
         rd_case(out, id, k, "/ok", &[Op::Append("location".into(), "/e1".into()), Op::Append("LOCATION".into(), "/e2".into())]);
     }
-    let n = if thorough { 100_000 } else { 10_000 };
+    let n = if thorough { 300_000 } else { 30_000 };
     for _ in 0..n {
         let ops = if rng.chance(1, 4) { gen_ops(rng, false) } else { vec![] };
         rd_case(out, id, *rng.pick(RK), &gen_location(rng), &ops);
@@ -710,7 +710,7 @@ fn lw_stream(out: &mut Out, id: &mut u64, rng: &mut Rng, thorough: bool) {
         start_server(api, (), ServerOpts::default())
     });
     let addr = server.local_addr();
-    let n = if thorough { 5000 } else { 600 };
+    let n = if thorough { 15_000 } else { 1_500 };
     for i in 0..n {
         let redirect = i % 3 == 2;
         let (line_in, target) = if redirect {
